@@ -557,6 +557,55 @@ class _Stop(Exception):
     pass
 
 
+class OutputBuffer(Unit):
+    """Timings.get_output_buffer: every node's ring has max(required sizes) + extra padding rows (at least one; max(1, padding) for a node nobody reads), and EVERY row starts as
+    the node's default output - what a window entry with a negative sequence number must read (C08) before the producer has written anything"""
+    name = "Timings.get_output_buffer"
+    target = BASE + "::Timings.get_output_buffer"
+    props = ("C08", "C01")
+
+    def configs(self):
+        yield "sizes given, no padding", dict(sizes={"a": [2, 3], "b": [1], "c": []}, pad=0, given=True)
+        yield "sizes given, padding 2", dict(sizes={"a": [2, 3], "b": [1], "c": []}, pad=2, given=True)
+        yield "sizes from get_buffer_sizes", dict(sizes={"a": [4], "b": [2, 2]}, pad=1, given=False)
+
+    def opts(self, cfg):
+        return {"assert_raises": True}
+
+    def run(self, ctx):
+        ex, cfg = ctx.ex, ctx.cfg
+        DEF = z3.Function("init_output", Leaf, Leaf, REAL)
+        seen = []
+
+        def mk(name):
+            nid = z3.Const(f"node.{name}", Leaf)
+            return Rec("BaseNode", dict(name=name, init_output=lambda ex_, rng=None, graph_state=None: (seen.append((name, rng)), {"y": DEF(nid, rng)})[1]), module=None)
+        nodes = {k: mk(k) for k in cfg["sizes"]}
+        T = Rec("Timings", dict(slots={}, get_buffer_sizes=lambda ex_: {k: list(v) for k, v in cfg["sizes"].items()}), module=BASE, frozen=True)
+        rng, gs = z3.Const("rng", Leaf), z3.Const("graph_state", Leaf)
+        kw = dict(extra_padding=cfg["pad"], graph_state=gs, rng=rng)
+        if cfg["given"]:
+            kw["sizes"] = {k: list(v) for k, v in cfg["sizes"].items()}
+        out = ctx.call(self_obj=T, args=[nodes], kwargs=kw)
+        ok = hasattr(out, "items") and set(dict(out.items())) == set(nodes)
+        ctx.ensure("one ring buffer per node", z3.BoolVal(ok))
+        if not ok:
+            return
+        out = dict(out.items())
+        keys = {}
+        for name, r in seen:
+            keys.setdefault(name, set()).add(str(r))
+        ctx.ensure("every node's default output is drawn with ONE key of its own", z3.BoolVal(all(len(v) == 1 for v in keys.values()) and len({next(iter(v)) for v in keys.values()}) == len(nodes)))
+        for k, req in cfg["sizes"].items():
+            want = (max(req) + cfg["pad"]) if req else max(1, cfg["pad"])
+            b = out[k]["y"] if isinstance(out[k], dict) else None
+            okk = isinstance(b, Arr)
+            ctx.ensure(f"C08 node {k}: the ring has max(required sizes) + extra padding = {want} rows (a node nobody reads: max(1, padding))", toz(b.n) == want if okk else z3.BoolVal(False))
+            if okk:
+                r0 = z3.simplify(z3.Select(b.a, 0))
+                ctx.ensure(f"C08 node {k}: every row starts as the node's default output (what an unfilled window entry reads)", z3.And(*[z3.Select(b.a, i) == r0 for i in range(want)], z3.BoolVal(r0.decl().name() == "init_output")))
+
+
 class BufferAdmission(Unit):
     """user-supplied buffer_sizes are accepted only if the ring is at least as large as EVERY reader's requirement for that producer
     (so that no output is overwritten before its last scheduled reader: lemma RB needs size >= requirement); otherwise AssertionError"""
@@ -623,7 +672,7 @@ class BufferAdmission(Unit):
                 ctx.ensure("C08 ... and their maximum is the user's maximum", mx == biggest)
 
 
-UNITS += [BufferAdmission()]
+UNITS += [BufferAdmission(), OutputBuffer()]
 
 
 class TreeTake(Unit):
